@@ -5,7 +5,28 @@ from pyvc.types import DictT, ListT, NoneType, Opt, TupleT
 from pyvc.world import Contract
 
 
+A_PURE = ("A-PURE: info_schema.insert_table_comment_sql / insert_text_lengths_sql return a text determined by their arguments "
+          "(bodies are f-strings over the parameters only); `comment_sql_of` / `text_lengths_sql_of` name that text")
+
+
 def install(w):
+    import z3
+
+    from pyvc.sorts import S, V, mks
+    from pyvc.state import Val
+    from pyvc.world import SpecFun
+
+    CS = z3.Function("comment_sql_of", S, S, S, S, S)
+    TS = z3.Function("text_lengths_sql_of", S, S, S, V, S)
+
+    def comment_sql_of(ex, st, args):
+        return Val(mks(CS(*[ex.as_str(st, a, None) for a in args])), str)
+
+    def text_lengths_sql_of(ex, st, args):
+        return Val(mks(TS(*[ex.as_str(st, a, None) for a in args[:3]], args[3].t)), str)
+
+    w.specfuns["comment_sql_of"] = SpecFun("comment_sql_of", comment_sql_of)
+    w.specfuns["text_lengths_sql_of"] = SpecFun("text_lengths_sql_of", text_lengths_sql_of)
     w.add_contract(
         Contract(
             "fakesnow.info_schema.insert_table_comment_sql",
@@ -21,6 +42,8 @@ def install(w):
                 "C09.comment_sql.row": "(\"values ('\" + catalog + \"', '\" + schema + \"', '\" + table + \"', '\" + comment + \"')\") in result",
                 "C09.comment_sql.upsert": "'ON CONFLICT (ext_table_catalog, ext_table_schema, ext_table_name)' in result and 'DO UPDATE SET comment = excluded.comment' in result",
             },
+            private=["C09.comment_sql.target", "C09.comment_sql.row", "C09.comment_sql.upsert"],
+            assumed_ensures={"A-PURE.comment_sql": "result == comment_sql_of(catalog, schema, table, comment)"},
             props=["C09"],
         )
     )
@@ -37,6 +60,8 @@ def install(w):
                 "C09.text_lengths_sql.target": "('INSERT INTO ' + catalog + '.information_schema._fs_columns_ext') in result",
                 "C09.text_lengths_sql.upsert": "'ON CONFLICT (ext_table_catalog, ext_table_schema, ext_table_name, ext_column_name)' in result and 'DO UPDATE SET ext_character_maximum_length = excluded.ext_character_maximum_length' in result",
             },
+            private=["C09.text_lengths_sql.target", "C09.text_lengths_sql.upsert"],
+            assumed_ensures={"A-PURE.text_lengths_sql": "result == text_lengths_sql_of(catalog, schema, table, text_lengths)"},
             props=["C09"],
         )
     )
